@@ -309,6 +309,11 @@ func cmdCheck(args []string) int {
 				}
 				reported[key] = true
 				dir := filepath.Join(outDir, "replays", prop, sanitize(r.Job+"-"+paramStr(r.Params)+"-"+q.Label))
+				if violations > 0 && replayed >= 3 {
+					// enough confirmed counterexamples; further sat obligations are counted only
+					violations++
+					continue
+				}
 				if *noReplay {
 					fmt.Printf("SAT (not replayed) %s[%s] %s %q model=%v\n", r.Job, paramStr(r.Params), q.Kind, q.Label, q.Model)
 					violations++
